@@ -196,15 +196,23 @@ func (i *Interpreter) QueryContext(ctx context.Context, query string, args ...in
 		next: next,
 	}
 
+	simYield(&sols, "U:query")
 	go func() {
 		defer close(next)
+		defer simYield(&sols, "P:exit")
+		simYield(&sols, "P:start")
 		if !<-more {
 			return
 		}
+		simYield(&sols, "P:woke-first")
 		if _, err := engine.Call(&i.VM, t, func(env *engine.Env) *engine.Promise {
+			simYield(&sols, "P:send-next")
 			next <- env
+			simYield(&sols, "P:wait-more")
+			defer simYield(&sols, "P:woke-more") // runs right after the receive below
 			return engine.Bool(!<-more)
 		}, env).Force(ctx); err != nil {
+			simYield(&sols, "P:set-err")
 			sols.err = err
 		}
 	}()
